@@ -252,11 +252,27 @@ example : upperEff stdCfg Call.plain 3 (2 : ℚ) <
   simp [awCheckEq, awX, awZi, awZu, awZl, lowerEff, upperEff, adjU, adjL, sgn, stdCfg, Call.plain]
   norm_num
 
-/-- **Defect, for all inputs**: `AntiWindup.check_eq` never consults `enable` — a disabled anti-windup
-limiter clamps exactly like an enabled one (documented: "if not enabled … zu = zl = 0, zi = 1") -/
-theorem antiwindup_ignores_enable (anyPeg : Bool) :
-    awCheckEq { c with enable := false } k lock niter anyPeg s u = awCheckEq c k lock niter anyPeg s u := rfl
 end antiwindup
+
+/-- **A disabled anti-windup limiter does nothing** (documented: "if not enabled … zu = zl = 0, zi = 1"):
+flags, limits, state and equation value of every device are what they were.  On the pinned tree
+`AntiWindup.check_eq` never consulted `enable` and clamped like an enabled limiter (finding
+`antiwindup-ignores-enable`, repaired in /repo; the model's guard is the first line of `awCheckEqAll`). -/
+theorem antiwindup_disabled_is_identity (c : LimCfg) (k : Call) (lock niter : Nat) (ds : List (Aw ℚ × ℚ))
+    (he : c.enable = false) : awCheckEqAll c k lock niter ds = ds.map (·.1) := by
+  simp [awCheckEqAll, he]
+
+/-- … and an enabled one is the device-wise `awCheckEq` the theorems above are about -/
+theorem antiwindup_enabled_is_checkEq (c : LimCfg) (k : Call) (lock niter : Nat) (ds : List (Aw ℚ × ℚ))
+    (he : c.enable = true) :
+    awCheckEqAll c k lock niter ds = ds.map (fun d => awCheckEq c k lock niter (awAnyPeg c k lock niter ds) d.1 d.2) := by
+  simp [awCheckEqAll, he]
+
+/-- the input that failed on the pinned tree: a disabled limiter, state above the upper limit with a positive
+derivative — nothing is clamped now -/
+example : awCheckEqAll { stdCfg with enable := false } Call.plain 4 0
+    [((⟨-1, 2, true, false, false, false, false, 3, 1⟩ : Aw ℚ), 3)] = [⟨-1, 2, true, false, false, false, false, 3, 1⟩] := by
+  simp [awCheckEqAll, stdCfg]
 
 example : lowerEff stdCfg Call.plain 3 (-1 : ℚ) < upperEff stdCfg Call.plain 3 (2 : ℚ) ∧
     (awCheckEq stdCfg Call.plain 4 0 true (⟨-1, 2, true, false, false, false, false, 3, 1⟩ : Aw ℚ) 3).zi = false := by
@@ -274,11 +290,11 @@ theorem antiwindup_equal_limits_sum :
 /-- all devices at once: every device of the result that is pegged has zero derivative and (for ordered
 limits) sits on a limit; `anyPeg` is then true, so the vectorised write did take place -/
 theorem antiwindup_all_pegged_partial (c : LimCfg) (k : Call) (lock niter : Nat) (ds : List (Aw ℚ × ℚ))
-    (hl : c.noLower = false) (hu : c.noUpper = false) (hlock : niter ≤ lock)
+    (he : c.enable = true) (hl : c.noLower = false) (hu : c.noUpper = false) (hlock : niter ≤ lock)
     (hord : ∀ d ∈ ds, lowerEff c k d.2 d.1.lower < upperEff c k d.2 d.1.upper) :
     ∀ r ∈ awCheckEqAll c k lock niter ds, r.zi = false → r.e = 0 ∧ (r.zl = true ∨ r.zu = true) := by
   intro r hr hz
-  simp only [awCheckEqAll, List.mem_map] at hr
+  simp only [awCheckEqAll, he, Bool.not_true, Bool.false_eq_true, if_false, List.mem_map] at hr
   obtain ⟨d, hd, rfl⟩ := hr
   have hany : awAnyPeg c k lock niter ds = true := by
     simp only [awAnyPeg, List.any_eq_true]
